@@ -545,6 +545,21 @@ def main_check(prop, modname, clsname, tier, seed):
             nviol += 1
         exit_code = 1
 
+    # -- thorough tier: tests of the Spec — the vectors shipped with the repository replayed through the
+    #    Lean reference definitions only (never through Model.*, never through python-bitcoinlib) ----
+    spec_vectors = 'not run (thorough tier only)'
+    if tier == 'thorough':
+        try:
+            from . import specvec
+            spec_vectors = specvec.run_for(prop.id, tier='quick')
+            bad = {f: c for f, c in spec_vectors.items() if isinstance(c, dict) and c.get('disagree')}
+            if bad:
+                print('INFRA-ERROR: the Spec definitions disagree with shipped vectors: %r' % bad)
+                return 2
+        except DriverError as e:
+            print('INFRA-ERROR: ' + str(e))
+            return 2
+
     # -- canary: the comparison must fire on a deliberately wrong model answer -------------------
     canary = canary_selftest(prop, samples)
 
@@ -555,6 +570,7 @@ def main_check(prop, modname, clsname, tier, seed):
                known_findings_seen=sorted(seen_known), broken_ties=[n_ for n_, _ in broken_ties],
                shards=len(results), tier_run=run_tier,
                truncated_by_budget=any(r['truncated'] for r in results), canary=canary,
+               spec_vectors_as_tests=spec_vectors,
                leanchecker=b['audit'].get('leanchecker', 'not run (thorough tier only)'))
     write_evidence(prop, tier, seed, time.time() - t0, cov, b['audit'], {}, nviol)
     print('%s %s: %d cases (%d distinct non-trivial), %d theorem obligations discharged of %d, %d violation(s), %.1fs'
